@@ -244,12 +244,11 @@ Definition l_data_in (me : node) (hidx sid : N) (from_ini : bool) (ctr : N) (k :
   | None => (ns, [MRecvErr me hidx], [])
   | Some u =>
     if accepts u sid from_ini ctr then
-      let u1 := set_recv u ctr in
       match k with
-      | KData pl => (set_tuns ns (upd_l hidx (fun _ => u1) (n_tuns ns)), [], [pl])
-      | KTestReq => let '(u2, m) := send_on me u1 KTestReply in
-                    (set_tuns ns (upd_l hidx (fun _ => u2) (n_tuns ns)), [m], [])
-      | KTestReply => (set_tuns ns (upd_l hidx (fun _ => u1) (n_tuns ns)), [], [])
+      | KData pl => (set_tuns ns (upd_l hidx (fun t => set_recv t ctr) (n_tuns ns)), [], [pl])
+      | KTestReq => let '(_, m) := send_on me (set_recv u ctr) KTestReply in
+                    (set_tuns ns (upd_l hidx (fun t => set_sent (set_recv t ctr)) (n_tuns ns)), [m], [])
+      | KTestReply => (set_tuns ns (upd_l hidx (fun t => set_recv t ctr) (n_tuns ns)), [], [])
       end
     else (ns, [], [])
   end.
@@ -281,8 +280,8 @@ Definition l_check (me_addr peer_addr : addr) (me : node) (lidx : N) (elig : boo
     else if t_pd u then (remove_l ns lidx, [])
     else if primary then
       if t_out u then
-        let '(u2, m) := send_on me (set_flags u false false true) KTestReq in
-        (set_tuns ns (upd_l lidx (fun _ => u2) (n_tuns ns)), [m])
+        let '(_, m) := send_on me (set_flags u false false true) KTestReq in
+        (set_tuns ns (upd_l lidx (fun t => set_sent (set_flags t false false true)) (n_tuns ns)), [m])
       else (set_tuns ns (upd_l lidx (fun t => set_flags t false false false) (n_tuns ns)), [])
     else (set_tuns ns (upd_l lidx (fun t => set_flags t false false true) (n_tuns ns)), [])
   end.
